@@ -674,6 +674,31 @@ def find_table(cls_name):
     return {"reproduced": False, "note": f"{cls_name}: get_dim matches get_table on {len(TABLES)} small tables"}
 
 
+RECORDS = [[], [{}], [{"a": 1}], [{"a": 1, "b": 2}], [{"a": 1, "b": 2}, {"a": 3, "b": 4}], [{"a": 1}, {"a": 2, "b": 3}], [{"a": 1, "b": 2, "c": 3}, {"a": 4}],
+           [{"a": 1}, {"b": 2}, {"a": None, "c": ""}], [{"x": "1", "y": 2.5}, {"x": "", "y": None}, {"y": 3, "x": 4}, {}]]
+
+
+def find_record_table(cls_name):
+    """Shape postcondition of a table class whose rows are computed from records (XlsSheet): [] without records, else header row
+    + one row per record, every row with one cell per key of the first record; raises nothing."""
+    from sharepoint2text.parsing.extractors import data_types as dt
+    cls = getattr(dt, cls_name)
+    for data in RECORDS:
+        try:
+            t = cls(data=[dict(r) for r in data]).get_table()
+        except Exception as e:  # noqa
+            return {"reproduced": True, "target": f"data_types.py::{cls_name}.get_table", "inputs": {"data": data}, "expected": "no exception",
+                    "observed": f"{type(e).__name__}: {e}"}
+        want_rows = 0 if not data else len(data) + 1
+        width = len(data[0]) if data else 0
+        ok = isinstance(t, list) and len(t) == want_rows and all(isinstance(r, list) and len(r) == width for r in t)
+        if not ok:
+            return {"reproduced": True, "target": f"data_types.py::{cls_name}.get_table", "inputs": {"data": data},
+                    "expected": f"{want_rows} rows of {width} cells (header + one row per record, one cell per key of the first record)",
+                    "observed": f"shape {[len(r) if isinstance(r, list) else type(r).__name__ for r in t] if isinstance(t, list) else type(t).__name__}"}
+    return {"reproduced": False, "note": f"{cls_name}.get_table: documented shape on {len(RECORDS)} small record lists"}
+
+
 def image_instances(cls_name):
     from sharepoint2text.parsing.extractors import data_types as dt
     import dataclasses
@@ -1159,6 +1184,10 @@ def find(req):
         return {"reproduced": False, "note": "damaged / garbled pictures, BLIP stream and fixtures: every image honours the interface"}
     if ".get_dim/" in ob:
         return find_table(ob.split("::")[1].split(".")[0])
+    if ".get_table/" in ob and ("/inv-" in ob or "/ensures#row-count" in ob or "/ensures#every-row" in ob):
+        r = find_record_table(ob.split("::")[1].split(".")[0])
+        if r["reproduced"]:
+            return r
     if ".get_bytes/" in ob:
         return find_image(ob.split("::")[1].split(".")[0])
     if "small-scope-accessor-totality" in ob or req.get("content_scope"):
